@@ -1,0 +1,53 @@
+//go:build verif
+
+package core
+
+import (
+	"github.com/jsightapi/jsight-api-core/directive"
+	"github.com/jsightapi/jsight-api-core/jerr"
+)
+
+// Read-only accessors and phase entry points for verification builds.
+
+// VerifScanProject runs only the scanning phase (lexemes -> directive forest).
+func (core *JApiCore) VerifScanProject() *jerr.JApiError { return core.scanProject() }
+
+// VerifExpandMacros runs collectMacro, checkMacroForRecursion and processPaste.
+func (core *JApiCore) VerifExpandMacros() *jerr.JApiError {
+	if je := core.collectMacro(); je != nil {
+		return je
+	}
+	if je := core.checkMacroForRecursion(); je != nil {
+		return je
+	}
+	return core.processPaste()
+}
+
+// VerifDirectives returns the forest built by the scanning phase.
+func (core *JApiCore) VerifDirectives() []*directive.Directive { return core.directives }
+
+// VerifDirectivesWithPastes returns the forest after MACRO/PASTE expansion.
+func (core *JApiCore) VerifDirectivesWithPastes() []*directive.Directive {
+	return core.directivesWithPastes
+}
+
+// VerifMacroNames returns the names of the collected macros.
+func (core *JApiCore) VerifMacroNames() []string {
+	out := make([]string, 0, len(core.macro))
+	for k := range core.macro {
+		out = append(out, k)
+	}
+	return out
+}
+
+// VerifValidateIncludeFileName exposes validateIncludeFileName.
+func VerifValidateIncludeFileName(s string) error { return validateIncludeFileName(s) }
+
+// VerifFileAccessObserver, when set, is told every path handed to os.Stat / os.ReadFile by INCLUDE processing.
+var VerifFileAccessObserver func(op, path string)
+
+func verifObserveFileAccess(op, path string) {
+	if VerifFileAccessObserver != nil {
+		VerifFileAccessObserver(op, path)
+	}
+}
